@@ -60,7 +60,7 @@ def run(rep, tier):
                 nontrivial += 1
     rep.part("replay", executed=summary["executed"], mismatches=summary["mismatches"])
     # impl -> spec
-    runs, steps = (400, 250) if thorough else (40, 150)
+    runs, steps = (4000, 250) if thorough else (40, 150)
     tpath = vlib.record_trace("C13", ["record", "c13", "--runs", str(runs), "--steps", str(steps)])
     recs = vlib.read_ndjson(tpath)
     res = vlib.run_tlc("C13", "Trace_C13", name="trace", env={"TRACE": tpath}, workers=1, deque=True, stack="1g")
